@@ -2516,6 +2516,9 @@ static size_t ZSTD_resetCCtx_byCopyingCDict(ZSTD_CCtx* cctx,
 
     cctx->dictID = cdict->dictID;
     cctx->dictContentSize = cdict->dictContentSize;
+    /* the copied window ends where the dictionary buffer ends : same switch as on the loading path,
+     * see ZSTD_loadDictionaryContent() */
+    cctx->blockState.matchState.forceNonContiguous = params.deterministicRefPrefix;
 
     /* copy block state */
     ZSTD_memcpy(cctx->blockState.prevCBlock, &cdict->cBlockState, sizeof(cdict->cBlockState));
